@@ -5,18 +5,19 @@
    A chunk is represented by its length only (`None` = nil slot: never allocated or released by TrimTo); a slice
    handed out is the triple (chunk index, offset in the chunk, length).
 
-   One `CStep t` is ONE atomic action of goroutine t in Allocate:
-     Req       pos := atomic.AddUint64(&a.compIdx, sz)                                  -> Added
-     Added     buf := a.buffers[bufIdx]; if posIdx > len(buf)                            -> WantLock | Fits
-     Fits      data := buf[posIdx-sz : posIdx]; return                                   -> Done
-     WantLock  a.Lock()  (enabled only while the mutex is free)                          -> Locked
-     Locked    newPos := atomic.LoadUint64(&a.compIdx); newBufIdx != bufIdx ?            -> Unlocking | Grow
-     Grow      a.addBufferAt(bufIdx+1, sz)   (whole function, runs under the mutex)      -> Grown | Done(panic)
-     Grown     atomic.StoreUint64(&a.compIdx, uint64((bufIdx+1)<<32))                    -> Unlocking
-     Unlocking a.Unlock(); continue                                                      -> Req
+   One `AcStep t` is ONE atomic action of goroutine t in Allocate:
+     TReq      pos := atomic.AddUint64(&a.compIdx, sz)                                  -> TAdded
+     TAdded    buf := a.buffers[bufIdx]; if posIdx > len(buf)                            -> TWantLock | TFits
+     TFits     data := buf[posIdx-sz : posIdx]; return                                   -> TDone
+     TWantLock a.Lock()  (enabled only while the mutex is free)                          -> TLocked
+     TLocked   newPos := atomic.LoadUint64(&a.compIdx); newBufIdx != bufIdx ?            -> TUnlocking | TGrow
+     TGrow     a.addBufferAt(bufIdx+1, sz)   (whole function, runs under the mutex)      -> TGrown | TDone(panic)
+     TGrown    atomic.StoreUint64(&a.compIdx, uint64((bufIdx+1)<<32))                    -> TUnlocking
+     TUnlocking  a.Unlock(); continue                                                    -> TReq
    Arithmetic on compIdx is mod 2^64 exactly as the code's; nothing stops the offset half from carrying into the
    chunk half (finding "carry"): the theorems state the no-carry regime explicitly.
-   `handed` is a ghost log (never read by a step): the ranges returned since the last Reset. *)
+   (Names carry a prefix -- astate, apc, astep, AcStep, TReq ... -- because all models are extracted into one
+   OCaml module.)  `handed` is a ghost log (never read by a step): the ranges returned since the last Reset. *)
 From Ristretto Require Import Base.Word.
 Open Scope N_scope.
 
